@@ -307,7 +307,17 @@ func c17r3(c *core.Ctx) {
 				bi, ok := call.Call.Value.(*ssa.Builtin)
 				return ok && bi.Name() == "len"
 			}
-			if n, isK := core.ConstInt(b.Y); isK && n == 0 && isLen(b.X) {
+			// len(v) > 0, or n > 0 for the n that v was made with ( v := make([]byte, n) )
+			sizes := func(x ssa.Value) bool {
+				found := false
+				core.Instrs(rd, func(i ssa.Instruction) {
+					if ms, ok := i.(*ssa.MakeSlice); ok && (core.StripConv(ms.Len) == core.StripConv(x) || sameValue(ms.Len, x) || sameLoad(core.StripConv(ms.Len), core.StripConv(x))) {
+						found = true
+					}
+				})
+				return found
+			}
+			if n, isK := core.ConstInt(b.Y); isK && n == 0 && (isLen(b.X) || sizes(b.X)) {
 				switch b.Op {
 				case token.GTR, token.NEQ:
 					return true, false
@@ -460,6 +470,47 @@ func c17r4(c *core.Ctx) {
 		}
 	} else {
 		c.Undecided("tlv8.read", token.NoPos, "not found")
+	}
+	// "the previous item was a delimiter" is a statement about the previous item only: every iteration that stores a value re-assigns
+	// the flag (a flag that is set by a delimiter and only cleared by the next delimiter makes every later fragment a new list element)
+	if rd := p.Func("tlv8", "read"); rd != nil {
+		var flags []*ssa.Phi
+		core.Instrs(rd, func(i ssa.Instruction) {
+			if ph, ok := i.(*ssa.Phi); ok && reachesAfter(ph, ph) {
+				if b, ok := ph.Type().Underlying().(*types.Basic); ok && b.Kind() == types.Bool {
+					flags = append(flags, ph)
+				}
+			}
+		})
+		for _, flag := range flags {
+			kept, iters := 0, 0
+			core.EnumPaths(rd, 3, 200000, func(pa core.Path) {
+				var idx []int
+				for k, b := range pa {
+					if b == flag.Block() {
+						idx = append(idx, k)
+					}
+				}
+				for n := 0; n+1 < len(idx); n++ {
+					stores := false
+					pa[idx[n]:idx[n+1]].Instrs(func(x ssa.Instruction) {
+						if _, ok := x.(*ssa.MapUpdate); ok {
+							stores = true
+						}
+					})
+					if !stores {
+						continue
+					}
+					iters++
+					// the value carried back to the header, resolved over this iteration only: the header phi itself = not assigned
+					if pa.ResolveWithin(idx[n], idx[n+1], flag) == ssa.Value(flag) {
+						kept++
+					}
+				}
+			})
+			c.Check(kept == 0 && iters > 0, "delimiter-flag-per-item@"+fname(rd), flag.Pos(), "every iteration that stores a value re-assigns the delimiter flag",
+				"an iteration that stores a value leaves the 'previous item was a delimiter' flag as it was: once a list delimiter was seen, the fragments of every later long value are filed as list elements instead of being merged")
+		}
 	}
 	dec := p.Func("tlv8", "(*decoder).decode")
 	if dec == nil {
